@@ -4,7 +4,7 @@
    for ARBITRARY inputs (not assumed sorted), any mask, empty arrays, any search target / start. *)
 From Coq Require Import ZArith.
 From SA Require Import Base.Prelude Kernels.Intersect Kernels.Linear Kernels.Intersect_Safe Kernels.Linear_Proofs
-  Index.Index Index.Index_Spec Score.BM25 Score.BM25_Walk Score.Score View.View Score.BM25_Walk_Proofs.
+  Index.Index Index.Index_Spec Score.BM25 Score.BM25_Walk Score.Score View.View Score.BM25_Walk_Proofs Index.Index_Proofs2 Span.Span Span.Span_Safe.
 Open Scope N_scope.
 
 Theorem C14_intersect_drop : forall l r mask, ~ is_fault (intersect_drop l r mask).
@@ -92,3 +92,18 @@ Theorem C14_bm25_call_site_view : forall docs bs ix avoid keys v ts lo hi tfs df
   ~ is_fault (bm25_score_walk (map f32_of_Z (map Z.of_N tfs)) (map f32_of_Z (map Z.of_N dls)) avg idf k1 b).
 Proof. exact view_score_walk_safe. Qed.
 Print Assumptions C14_bm25_call_site_view.
+
+(* ---- the span (slop) search: spans.py _intersect_all + spans.pyx _span_freqs with its 512-slot table ---- *)
+(* no checked access faults, for ARBITRARY posting arrays (unsorted, empty, any number of terms) and any slop:
+   every read of the flattened postings is inside it, every store into the span table is below its capacity *)
+Theorem C14_span_search_no_fault : forall encs slop, api_nofault (span_search encs slop).
+Proof. exact span_search_no_fault. Qed.
+Print Assumptions C14_span_search_no_fault.
+(* ... and every loop ends within the model's fuel (arrays below 2^58 words: the galloping kernels' 66 doublings) *)
+Theorem C14_span_search_terminates : forall encs slop, Forall (fun e => N.of_nat (length e) < 2 ^ 58) encs ->
+  api_safe (span_search encs slop).
+Proof. exact span_search_safe. Qed.
+(* the public entry point on an indexed corpus, incl. the scatter of the counts into the per-row vector *)
+Theorem C14_slop_freqs_safe : forall docs ix ts slop, wf_docs docs -> index_ok docs ix -> api_safe (slop_freqs ix ts slop).
+Proof. exact slop_freqs_safe. Qed.
+Print Assumptions C14_slop_freqs_safe.
